@@ -106,6 +106,11 @@ claim('C15', 'sched+bfs+race',
       'For 120 pairs (every unordered pair of 15 request bodies incl. each body with itself: SSO accepted / rejected, callbacks for three completed sessions, for an unknown id and for a pending session, logout x2, attribute query x2, metadata for two Hosts, certificate) and 3 triples, every interleaving of the real ServeHTTP calls on ONE provider within preemption bound 1 (quick) / 2 (thorough) is executed: scheduling points are the entries of every repository function and function literal, every storage call, every sync-shim operation and every go statement (all inserted by the build-time overlay; sync is replaced by a scheduler-aware shim so a change that adds a lock or pool is explored, not hung). Oracle per execution: each reply with IDs and signature bytes masked equals the reply the same request gets alone on a fresh provider; no reply or storage call carries another session\'s marker; all response / assertion / metadata IDs over all threads and executions are distinct NCNames; no deadlock or horizon overflow; replaying the default schedule reproduces the identical (thread, point) trace. Companions: every sequence of <= 2 (quick) / <= 3 (thorough) requests on one provider gives each request its solo reply; the same bodies run free in a -race build (32 goroutines x 40 rounds).',
       'The scheduler does not interleave inside a function body between two points nor inside the Go runtime / third-party libraries; data races there are only reachable by the race companion, which is a free-running (non-exhaustive) run reported as companion evidence. N is 2-3 threads.', '§5 C15')
 
+claim('C01', 'bfs+sched',
+      'explicit-state breadth-first search over event histories on the real provider (replay on a fresh world, canonical-state deduplication) plus stateless exploration of callback || completion interleavings under the controlled scheduler',
+      'E2: events are SSO acceptance (POST / Redirect), injected pending records (4 bindings x consumer URL registered / empty, optionally reusing the first session\'s request ID and RelayState), completion of any session, callback of any session with the id in 7 placements (GET query, POST body, body and query naming different sessions, two values, header only, padded, upper-cased) plus unknown / empty / absent id, and arming a one-shot failure of user-info, entity or signing-key retrieval (error, key without certificate, garbage certificate, zero key, certificate of another key). BFS to depth 5 with <= 2 sessions (quick) / depth 6 with <= 3 sessions (thorough); every transition incl. self-loops is executed on the real handler and judged: Success only for a named, existing session whose completion preceded the Done() read and whose user is the subject; every other reply carries no NameID, AttributeValue, SignatureValue, Signature parameter or user marker, and user info is never fetched before the gate. A hidden-state pass extends every state by callback(k) ; callback(any). E3: callback(i) || complete(i) with unbounded preemptions on both bindings and callback(i) || callback(j) || complete(j) at preemption bound 2 / 3; Success additionally requires the completion event to precede that thread\'s Done() read in the recorded total order.',
+      'Sessions <= 2-3, depth <= 5-6; the canonical state key abstracts request IDs / RelayState to "reuses the first session\'s values or not".', '§5 C01')
+
 NOT_YET = {i: 'check not built yet in this revision (planned: see DESIGN.md §5 %s); not claimed until its machinery exists' % i for i in ids}
 
 def main():
